@@ -22,6 +22,14 @@ macro_rules! opaque {
     )* } }
 }
 opaque!(Attach, Flow, Transfer, Disposition, Detach, Begin, End, Payload, AmqpError, TransportError, ConnCtlRx, OpenRest);
+// bytes::Bytes as far as these functions may look at it: its length (R11)
+impl Payload {
+    pub uninterp spec fn spec_len(&self) -> nat;
+    #[verifier::external_body]
+    pub fn len(&self) -> (r: usize) ensures r == self.spec_len() { unimplemented!() }
+    #[verifier::external_body]
+    pub fn is_empty(&self) -> (r: bool) ensures r == (self.spec_len() == 0) { unimplemented!() }
+}
 #[derive(Clone, Copy, PartialEq, Eq)]
 pub struct IncomingChannel(pub u16);
 #[derive(Clone, Copy, PartialEq, Eq)]
